@@ -26,16 +26,19 @@ let shard_of_argv () =
   match Array.to_list Sys.argv with
   | [_; "gen"; _; _; _; a; b] -> (try (int_of_string a, int_of_string b) with _ -> (0, 1))
   | _ -> (0, 1)
-let sharded ~seed ~n (emit : emit) (f : int -> rng -> string * (bool -> string)) : unit =
+let sharded ?(start = 0) ~seed ~n (emit : emit) (f : int -> rng -> string * (bool -> string)) : unit =
   let (shard, nshards) = shard_of_argv () in
   for i = 0 to n - 1 do
-    if i mod nshards = shard then begin
+    if (start + i) mod nshards = shard then begin
       let r = mk_rng (seed * 1000003 + i) in
       ignore (next64 r);
       let (case, g) = f i r in
       emit case (g true) (g false)
     end else emit "" "" ""
   done
+
+let counting (emit : emit) : emit * int ref =
+  let k = ref 0 in ((fun a b c -> incr k; emit a b c), k)
 
 let show = S_c03.show
 let sn = string_of_n
@@ -560,9 +563,10 @@ let gen_specs r (n : int) : Attr.aspec list =
 let () =
   register "c02.abbrev"
     ~doc:"abbreviation tables written by the spec encoder: 0..40 declarations, code schemes sequential / reversed / permuted / sparse (1, 3, 1000, 2^32+5, 2^63, 2^64-1) / gap / huge / mixed, any declaration order, 0..9 attribute specifications (inline/heap boundary at 5), duplicates; lookups of every declared code and of absent codes (0, neighbours, 2^64-1)"
-    (fun ~seed ~n emit ->
-      let r = mk_rng seed in
-      let one ?(k = -1) ?(scheme = -1) ?(dup = false) () =
+    (fun ~seed ~n emit0 ->
+      let (emit, count) = counting emit0 in
+      let result = ref None in
+      let one r ?(k = -1) ?(scheme = -1) ?(dup = false) () =
         let k = if k >= 0 then k else (match rand_int r 6 with 0 -> 0 | 1 -> 1 | 2 -> 2 + rand_int r 4 | 3 -> 40 | _ -> rand_int r 14) in
         let scheme = if scheme >= 0 then scheme else rand_int r 8 in
         let cs = gen_codes r scheme k in
@@ -594,14 +598,19 @@ let () =
         let spec =
           if has_dup [] declared then "err DuplicateAbbreviationCode"
           else "ok " ^ show_tbl_queries (fun q -> List.find_opt (fun a -> Z.equal (z_of_n a.ab_code) (z_of_n q)) decls) qs in
-        both emit (abbrev_case "c02.abbrev" sec off qs) (fun dbg ->
+        result := Some (abbrev_case "c02.abbrev" sec off qs, fun dbg ->
           let m = abbrev_model dbg sec off qs in
           if m = spec then spec else "model-inconsistent " ^ m) in
+      let take () = match !result with Some x -> x | None -> failwith "c02.abbrev" in
       (* exhaustive part: every scheme x small sizes, with and without a duplicate *)
+      let r = mk_rng seed in
       for scheme = 0 to 7 do
-        for k = 0 to 8 do one ~k ~scheme (); if k > 0 then one ~k ~scheme ~dup:true () done
+        for k = 0 to 8 do
+          one r ~k ~scheme (); (let (c, g) = take () in both emit c g);
+          if k > 0 then (one r ~k ~scheme ~dup:true (); let (c, g) = take () in both emit c g)
+        done
       done;
-      for _ = 1 to n do one ~dup:(rand_int r 5 = 0) () done);
+      sharded ~start:!count ~seed ~n emit0 (fun _ r -> one r ~dup:(rand_int r 5 = 0) (); take ()));
 
   register "c02.abbrevbytes"
     ~doc:"abbreviation sections as raw bytes: every byte string of length <= 2, then spec-encoded tables with a field-aware mutation (tag 0, children byte 2..255, name/form zero, code/tag/name LEB over-long or overflowing, truncation at every point, byte flips, missing terminators) and random byte strings"
@@ -659,8 +668,11 @@ let all_utypes_v5 big woff = [ UCompile; UType (big (), woff ()); UPartial; USke
 let () =
   register "c02.header"
     ~doc:"sections of 1-3 units written by the spec encoder: version 2-5 x 32/64-bit x address size 1/2/4/8 x byte order x every unit kind (v2-4: compile in .debug_info, type in .debug_types; v5: compile/type/partial/skeleton/split_compile/split_type) with boundary signatures, type offsets, dwo ids, abbreviation offsets and body lengths (exhaustive over that grid, then random)"
-    (fun ~seed ~n emit ->
+    (fun ~seed ~n emit0 ->
+      let (emit, count) = counting emit0 in
       let r = mk_rng seed in
+      let result = ref None in
+      let take () = match !result with Some x -> x | None -> failwith "c02.header" in
       let emit_units bigend types (us : (uheader * Byte0.byte list) list) =
         let sec = List.concat_map (fun (h, body) -> enc_unit bigend h body) us in
         let off = ref Z.zero in
@@ -671,9 +683,10 @@ let () =
               ~asz:(sn h.uh_asize) ~ut:(show_utype h.uh_type) ~aoff:(sn h.uh_abbrev_off) ~hsize:(sn (header_len h)) ~nbuf in
           off := Z.add !off (Z.add (z_of_n len) (Z.of_int (if h.uh_fmt64 then 12 else 4)));
           s) us) in
-        both emit (hdr_case "c02.header" bigend types sec) (fun dbg ->
+        result := Some (hdr_case "c02.header" bigend types sec, fun dbg ->
           let m = hdr_model dbg bigend types sec in
           if m = spec then spec else "model-inconsistent " ^ m) in
+      let emit_now bigend types us = emit_units bigend types us; let (c, g) = take () in both emit c g in
       let mk version f64 asz ut aoff =
         { uh_version = n_of_int version; uh_fmt64 = f64; uh_asize = n_of_int asz; uh_type = ut; uh_abbrev_off = aoff } in
       let body () = bytes_of_ints (rand_bytes r (pick r [| 0; 1; 2; 7; 30 |])) in
@@ -683,12 +696,13 @@ let () =
         List.iter (fun version ->
           if version = 5 then
             List.iter (fun types -> List.iter (fun ut ->
-              emit_units bigend types [ (mk 5 f64 asz ut (woff ()), body ()) ]) (all_utypes_v5 big woff)) [false; true]
+              emit_now bigend types [ (mk 5 f64 asz ut (woff ()), body ()) ]) (all_utypes_v5 big woff)) [false; true]
           else begin
-            emit_units bigend false [ (mk version f64 asz UCompile (woff ()), body ()) ];
-            emit_units bigend true [ (mk version f64 asz (UType (big (), woff ())) (woff ()), body ()) ]
+            emit_now bigend false [ (mk version f64 asz UCompile (woff ()), body ()) ];
+            emit_now bigend true [ (mk version f64 asz (UType (big (), woff ())) (woff ()), body ()) ]
           end) [2; 3; 4; 5]) [1; 2; 4; 8]) [false; true]) [false; true];
-      for _ = 1 to n do
+      sharded ~start:!count ~seed ~n emit0 (fun _ r ->
+        let body () = bytes_of_ints (rand_bytes r (pick r [| 0; 1; 2; 7; 30 |])) in
         let bigend = rand_bool r in
         let types = rand_int r 3 = 0 in
         let nu = 1 + rand_int r 3 in
@@ -700,8 +714,7 @@ let () =
           let h = pick_h () in
           let w = if h.uh_fmt64 then 64 else 32 in
           ({ h with uh_abbrev_off = n_of_z (biased_below r (p2 w)) }, body ())) in
-        emit_units bigend types us
-      done);
+        emit_units bigend types us; take ()));
 
   register "c02.headerbytes"
     ~doc:"malformed unit sections: every version 0..7 and 0xffff, every unit-type byte 0..8/0x80/0xff, address sizes 0..9/16/255, reserved initial lengths 0xfffffff0..0xfffffffe, lengths shorter than the header / longer than the section / 2^64-1, truncation at every byte, byte flips, random bytes"
@@ -847,8 +860,7 @@ let () =
   register "c02.rawnew"
     ~doc:"EntriesRaw::new(input, encoding, abbreviations, offset) with arbitrary start offsets (documented: `offset` may be any value): offsets near 2^64 make `offset + input.len()` overflow — a panic under overflow checks, wrapping otherwise; entries then read with read_entry"
     (fun ~seed ~n emit ->
-      let r = mk_rng seed in
-      for i = 1 to n do
+      sharded ~seed ~n emit (fun i r ->
         let u = gen_wellformed r ~size:0 in
         let nb = List.length u.body in
         let off = match i mod 6 with
@@ -856,16 +868,15 @@ let () =
           | 3 -> Z.sub two64 (Z.of_int nb) | 4 -> Z.sub u64max (Z.of_int nb) | _ -> boundary_z64 r in
         let tblbytes = u.abbrev in
         let aoff = u.hdr.uh_abbrev_off in
-        both emit (spf "c02.rawnew %d %s %s %s %s %s %s %s" (b01 u.bigend) (sn u.enc.version) (string_of_int (b01 u.enc.fmt64))
-                     (sn u.enc.address_size) (Z.to_string off) (hex_of_bytes u.body) (hex_of_bytes tblbytes) (sn aoff))
-          (fun dbg ->
+        (spf "c02.rawnew %d %s %s %s %s %s %s %s" (b01 u.bigend) (sn u.enc.version) (string_of_int (b01 u.enc.fmt64))
+                     (sn u.enc.address_size) (Z.to_string off) (hex_of_bytes u.body) (hex_of_bytes tblbytes) (sn aoff),
+          fun dbg ->
             try
               let tbl = must (AbbrevRd.abbreviations_at dbg tblbytes aoff) in
               let raw = must (DieRd.raw_new dbg u.body (n_of_z off)) in
               let (l, err) = must (DieRd.raw_loop (S (nat_of_int nb)) dbg u.enc tbl raw) in
               "ok " ^ with_err ";" (List.map show_die l) err
-            with Stop s -> s)
-      done);
+            with Stop s -> s)));
 
   register "c02.corpus"
     ~doc:"every unit of the compiler-built corpus (gcc/clang, DWARF 2-5, 64-bit, split/dwo, type units): all navigation styles agree with the raw entry sequence (harness oracle); exhaustive over the corpus"
